@@ -87,8 +87,14 @@ def concretise(case, rng):
             rows.append((t, 1, ", ".join(ps) if ps else "n/a"))
     rows.sort(key=lambda r: (r[0], r[1]))
     fmt = rng.choice(["%.1f", "%.3f", "%g"])
-    out = [(fmt % (r[0] / 1000.0 + 1.0), r[2]) for r in rows]
-    return out, tokens, plain
+    # where the time axis starts: usually 1 s; sometimes so that a Duration process ENDS exactly at time 0 (onsets before it are
+    # negative - legal), which is a boundary of its own
+    off = 1000
+    ends = [times[j - 1] + a["d"] for j, al in enumerate(acts, 1) for a in al if a["a"] == "dur"]
+    if ends and rng.random() < 0.3:
+        off = -rng.choice(ends)
+    out = [(fmt % ((r[0] + off) / 1000.0), r[2]) for r in rows]
+    return out, tokens, plain, off
 
 
 def execute(c):
@@ -129,7 +135,7 @@ def judge(c):
     prob, drift = [], []
     tp_of = {}
     for i, o in enumerate(res["onsets"]):
-        ms = round((o - 1.0) * 1000)
+        ms = round(o * 1000 - c.get("off", 1000))
         tp_of[i] = times.index(ms) + 1 if ms in times else None
     first = {}
     for i in sorted(tp_of):
@@ -241,9 +247,9 @@ def run(ctx):
         if quick and (n + ctx.seed) % 2:
             continue
         rng = random.Random(ctx.seed * 104729 + n)
-        rows, tokens, plain = concretise(j, rng)
+        rows, tokens, plain, off = concretise(j, rng)
         cases.append({"n": n, "times": j["times"], "acts": j["acts"], "expected": j["expected"], "endidx": j["endidx"],
-                      "rows": rows, "tokens": tokens, "plain": plain})
+                      "rows": rows, "tokens": tokens, "plain": plain, "off": off})
     with mp.get_context("fork").Pool(14, initializer=_init, initargs=(None,)) as pool:
         done = pool.map(execute, cases, chunksize=64)
     ndrift = 0
